@@ -72,6 +72,7 @@ func (u *ut0311) Broadcast(addr *net.UDPAddr, request []byte) ([][]byte, error) 
 
 	var replies = make([][]byte, 0)
 	var err error
+	var lock sync.Mutex
 
 	// NTS: set-ip doesn't return a reply
 	if request[1] != 0x96 {
@@ -80,10 +81,14 @@ func (u *ut0311) Broadcast(addr *net.UDPAddr, request []byte) ([][]byte, error) 
 				reply := make([]byte, 2048)
 
 				if N, remote, errx := connection.ReadFromUDP(reply); errx != nil {
+					lock.Lock()
 					err = errx
+					lock.Unlock()
 					return
 				} else {
+					lock.Lock()
 					replies = append(replies, reply[:N])
+					lock.Unlock()
 
 					u.debugf(fmt.Sprintf(" ... received %v bytes from %v (UDP)\n%s", N, remote, codec.Dump(reply[:N], " ...          ")), nil)
 				}
@@ -92,6 +97,9 @@ func (u *ut0311) Broadcast(addr *net.UDPAddr, request []byte) ([][]byte, error) 
 	}
 
 	time.Sleep(u.timeout)
+
+	lock.Lock()
+	defer lock.Unlock()
 
 	return replies, err
 }
